@@ -28,11 +28,11 @@ def run(res, tier):
         # a client that sends only after it has seen the upstreams' end of stream: fine when the proxy's downstream offers
         # CloseWrite, stuck for good when a wrapper hides it (the behaviour before fixes 35dca3a / 89753ce; must fail = self-test)
         for cfg, must_hold in (("L4ProxyW_wait.cfg", True), ("L4ProxyW_nowait_hidden.cfg", True), ("L4ProxyW_wait_hidden.cfg", False)):
-            r = run_tlc(tmp, "L4Proxy.tla", cfg, timeout=1800)
             if must_hold:
+                r = run_tlc(tmp, "L4Proxy.tla", cfg, timeout=1800)
                 tlc_ok(r, cfg)
-            elif not any("Cleanup" in e for e in r["errors"]):
-                raise Inconclusive(f"{cfg}: the model of a hidden half-close was expected to violate Cleanup: {r['errors'][:2]}")
+            else:
+                r = run_tlc_expect(tmp, "L4Proxy.tla", cfg, ["Cleanup"], f"{cfg}: the model of a hidden half-close was expected to violate Cleanup", timeout=1800)
             cov["states"] += r["distinct"]
             cov["transitions"] += r["generated"]
             cov["model_runs"].append(dict(cfg=cfg, distinct_states=r["distinct"], depth=r["depth"], expected="holds" if must_hold else "Cleanup violated (self-test)"))
